@@ -1,10 +1,11 @@
 #!/bin/bash
-# seedtest.sh <ID> [check ids...]: confirm a seeded breaking change made in the scratch worktree /tmp/seed-<ID>
+# seedtest.sh <ID>[suffix] [check ids...]: confirm a seeded breaking change made in the scratch worktree /tmp/seed-<ID>
 # (compiles, eino's tests pass, demo fails with it and passes without), run the given checks (default: <ID>)
 # against it through VERIF_PATCH_DIR, and store everything under /verif/seeded/<ID>/.
 set -u
 ID=$1; shift
-CHECKS=${*:-$ID}
+PROP=${ID:0:3}
+CHECKS=${*:-$PROP}
 WT=/tmp/seed-$ID
 OUT=/verif/seeded/$ID
 export GOFLAGS=-mod=mod GOPROXY=off GOSUMDB=off GOTOOLCHAIN=local
@@ -25,12 +26,12 @@ for d in $demo; do
   if go test -vet=off -count=1 -run . $pkg >/tmp/seedwork-$ID.with 2>&1; then demo_with="$demo_with PASS"; else demo_with="$demo_with FAIL"; fi
 done
 # 2. without the change
-git stash -q
+git diff > /tmp/seedwork-$ID.patch; git checkout -- .
 for d in $demo; do
   pkg=./$(dirname $d)
   if go test -vet=off -count=1 -run . $pkg >/tmp/seedwork-$ID.without 2>&1; then demo_without="$demo_without PASS"; else demo_without="$demo_without FAIL"; fi
 done
-git stash pop -q
+git apply /tmp/seedwork-$ID.patch
 echo "suite-with-change: ${suite:-all ok} | demo with:$demo_with without:$demo_without"
 # 3. our checks against the change
 PD=$(mktemp -d)
@@ -44,8 +45,8 @@ for c in $CHECKS; do
   results="$results {\"check\":\"$c\",\"exit\":$rc},"
   rm -rf /verif/replays/$c
 done
-rm -rf $PD /tmp/seedwork-$ID.with /tmp/seedwork-$ID.without
+rm -rf $PD /tmp/seedwork-$ID.with /tmp/seedwork-$ID.without /tmp/seedwork-$ID.patch
 python3 - <<PY
 import json
-json.dump({"property":"$ID","suite_with_change":"""${suite:-all packages ok}""","demo_with_change":"$demo_with".strip(),"demo_without_change":"$demo_without".strip(),"checks_run":[${results%,}],"how":"VERIF_PATCH_DIR=<changed files> ./check <id> quick (equivalent to git -C /repo apply patch.diff; run; git -C /repo checkout -- .)"},open("$OUT/meta.json","w"),indent=1)
+json.dump({"property":"$PROP","suite_with_change":"""${suite:-all packages ok}""","demo_with_change":"$demo_with".strip(),"demo_without_change":"$demo_without".strip(),"checks_run":[${results%,}],"how":"VERIF_PATCH_DIR=<changed files> ./check <id> quick (equivalent to git -C /repo apply patch.diff; run; git -C /repo checkout -- .)"},open("$OUT/meta.json","w"),indent=1)
 PY
